@@ -7,6 +7,7 @@ import (
 	"fmt"
 	"io"
 	"math"
+	"sync"
 
 	"github.com/cloudwego/gopkg/bufiox"
 	"github.com/cloudwego/gopkg/protocol/thrift/apache"
@@ -25,6 +26,23 @@ type readable struct {
 func (r *readable) ReadableLen() int { return r.n }
 
 type plainRW struct{ bytes.Buffer }
+
+// scripted reports a scripted sequence of readable lengths (a connection buffer that another
+// goroutine drains between two looks); after the script it keeps returning the last value.
+type scripted struct {
+	bytes.Buffer
+	seq   []int
+	calls int
+}
+
+func (s *scripted) ReadableLen() int {
+	i := s.calls
+	s.calls++
+	if i >= len(s.seq) {
+		i = len(s.seq) - 1
+	}
+	return s.seq[i]
+}
 
 // neighbours places two buffers side by side with live data directly after them, so that a
 // write past the end of the first buffer's struct becomes visible.
@@ -206,6 +224,63 @@ func monC19(c *drv.Ctx) {
 		}
 		cs.Count(true, "generic", cs.Idx)
 		cs.C.Obs("generic transport cases", 1)
+	})
+
+	// (2b) a readable length that changes between looks: the answer must be "unknown" or a positive
+	// length the object actually reported during the call - never zero, never a wrapped negative
+	scripts := [][]int{{5, 0}, {7, -1}, {1, 2}, {3, 0, 9}, {0, 4}, {-1, 6}, {2, -5, 8}, {9, 9}, {4, 0, 0}, {6, -1, -1}}
+	c.Stage("changing-readable-len", int64(len(scripts)), true, func(cs *drv.Case) {
+		sc := &scripted{seq: scripts[cs.Idx]}
+		tr := apache.NewDefaultTransport(sc)
+		got := tr.RemainingBytes()
+		ok := got == ^uint64(0)
+		for i := 0; i < sc.calls && i < len(sc.seq); i++ {
+			if sc.seq[i] > 0 && got == uint64(sc.seq[i]) {
+				ok = true
+			}
+		}
+		if !ok {
+			cs.Fail("generic-remaining-bytes", M{"changing": true}, M{"script": fmt.Sprint(scripts[cs.Idx]), "calls": sc.calls, "got": got, "message": "RemainingBytes is neither 'unknown' nor a positive length the object reported"})
+		}
+		cs.Count(true, "script", cs.Idx)
+		cs.C.Obs("generic transport cases", 1)
+	})
+
+	// (2c) the three registrations are independent: registering them from three goroutines at once
+	// must leave all three in effect
+	c.Stage("concurrent-registration", c.Pick(3, 12), false, func(cs *drv.Case) {
+		defer func() {
+			apache.RegisterCheckTStruct(nil)
+			apache.RegisterThriftRead(nil)
+			apache.RegisterThriftWrite(nil)
+		}()
+		rd := bufiox.NewBytesReader([]byte("x"))
+		var tgt []byte
+		wr := bufiox.NewBytesWriter(&tgt)
+		rounds := 3000
+		if c.Slow() {
+			rounds = 500
+		}
+		for round := 0; round < rounds; round++ {
+			apache.RegisterCheckTStruct(nil)
+			apache.RegisterThriftRead(nil)
+			apache.RegisterThriftWrite(nil)
+			var wg sync.WaitGroup
+			start := make(chan struct{})
+			wg.Add(3)
+			go func() { defer wg.Done(); <-start; apache.RegisterCheckTStruct(func(interface{}) error { return nil }) }()
+			go func() { defer wg.Done(); <-start; apache.RegisterThriftRead(func(bufiox.Reader, interface{}) error { return nil }) }()
+			go func() { defer wg.Done(); <-start; apache.RegisterThriftWrite(func(bufiox.Writer, interface{}) error { return nil }) }()
+			close(start)
+			wg.Wait()
+			e1, e2, e3 := apache.CheckTStruct(1), apache.ThriftRead(rd, 1), apache.ThriftWrite(wr, 1)
+			if e1 != nil || e2 != nil || e3 != nil {
+				cs.Fail("registration-lost", nil, M{"round": round, "errors": fmt.Sprint(e1, " | ", e2, " | ", e3), "message": "after three concurrent Register* calls returned, a callback is still reported as not registered"})
+				return
+			}
+		}
+		cs.Count(true, "conc-reg", cs.Idx)
+		cs.C.Obs("concurrent registration rounds", int64(rounds))
 	})
 
 	// (3) callbacks pass through; unregistered -> specific error
